@@ -18,6 +18,26 @@ use std::sync::{Arc, OnceLock};
 pub const NKEYS: usize = 6;
 /// key index of the point at infinity
 pub const INF: u8 = NKEYS as u8;
+/// a key outside the subgroup ([S]G + T) and a valid key ([A]G) whose 32-bit fingerprints
+/// (`PublicKey::get_fingerprint`, the first four bytes of sha256 of the compressed key) are equal:
+/// whatever identifies a key by less than its full encoding confuses the two. The scalars were
+/// found by `vsim debug-collide` for this pool's first G1 torsion point and are re-checked when
+/// the pool is built; if the check fails the two indexes fall back to ordinary keys.
+pub const K_COLLIDE_INVALID: u8 = INF + 5;
+pub const K_COLLIDE_VALID: u8 = INF + 6;
+const COLLIDE_A: u64 = 19_141;
+const COLLIDE_S: u64 = 127_295;
+
+fn scalar32(v: u64) -> [u8; 32] {
+    let mut b = [0u8; 32];
+    b[24..].copy_from_slice(&v.to_be_bytes());
+    b
+}
+
+/// is this key index one that no signature may be valid for?
+pub fn invalid_key(k: u8) -> bool {
+    k >= INF && k != K_COLLIDE_VALID
+}
 pub const NMSGS: usize = 8;
 
 pub struct Pool {
@@ -34,6 +54,11 @@ pub struct Pool {
     /// The pairing of such a key with any G2 point equals that of the honest key, so only
     /// the subgroup check of the decoder rejects it.
     pub shifted_pks: Vec<(PublicKey, usize)>,
+    /// the G1 torsion points behind shifted_pks (one per partner pair)
+    pub g1_torsion: Vec<PublicKey>,
+    /// (valid key [A]G, its secret key, key [S]G + T outside the subgroup, [S]'s secret key) with
+    /// equal fingerprints, when the hard-coded scalars check out
+    pub collide: Option<(PublicKey, SecretKey, PublicKey, SecretKey)>,
 }
 
 pub fn pool() -> &'static Pool {
@@ -107,6 +132,7 @@ pub fn pool() -> &'static Pool {
         // shifted keys come in partner pairs (P_a + T, P_b - T): each is outside the subgroup,
         // their sum is inside
         let mut shifted_pks = vec![];
+        let mut g1_torsion = vec![];
         let mut tries = 0;
         while shifted_pks.len() < 4 && tries < 4096 {
             tries += 1;
@@ -127,11 +153,26 @@ pub fn pool() -> &'static Pool {
                     if !t.is_inf() && !plus.is_valid() && !minus.is_valid() {
                         shifted_pks.push((plus, ka));
                         shifted_pks.push((minus, kb));
+                        g1_torsion.push(t);
                     }
                 }
             }
         }
-        Pool { sks, pks, msgs, msg_class, sigs, gts, off_subgroup: off, torsion, shifted_pks }
+        let collide = (|| {
+            if COLLIDE_A == 0 || g1_torsion.is_empty() {
+                return None;
+            }
+            let sk_a = SecretKey::from_bytes(&scalar32(COLLIDE_A)).ok()?;
+            let sk_s = SecretKey::from_bytes(&scalar32(COLLIDE_S)).ok()?;
+            let a = sk_a.public_key();
+            let x = &sk_s.public_key() + &g1_torsion[0];
+            if a.is_valid() && !x.is_valid() && !x.is_inf() && a.get_fingerprint() == x.get_fingerprint() {
+                Some((a, sk_a, x, sk_s))
+            } else {
+                None
+            }
+        })();
+        Pool { sks, pks, msgs, msg_class, sigs, gts, off_subgroup: off, torsion, shifted_pks, g1_torsion, collide }
     })
 }
 
@@ -141,6 +182,17 @@ pub type Pair = (u8, u8);
 
 pub fn key_of(k: u8) -> PublicKey {
     let p = pool();
+    if k == K_COLLIDE_VALID {
+        return match &p.collide {
+            Some((a, ..)) => a.clone(),
+            None => p.pks[0].clone(),
+        };
+    }
+    if k == K_COLLIDE_INVALID {
+        if let Some((_, _, x, _)) = &p.collide {
+            return x.clone();
+        }
+    }
     let k = k as usize;
     if k < NKEYS {
         p.pks[k].clone()
@@ -156,6 +208,19 @@ pub fn key_of(k: u8) -> PublicKey {
 fn share_of(k: u8, m: u8) -> Signature {
     let p = pool();
     let mi = m as usize % NMSGS;
+    if k == K_COLLIDE_VALID {
+        return match &p.collide {
+            Some((_, sk_a, ..)) => sign(sk_a, &p.msgs[mi]),
+            None => p.sigs[0][mi].clone(),
+        };
+    }
+    if k == K_COLLIDE_INVALID {
+        if let Some((_, _, x, sk_s)) = &p.collide {
+            let mut aug = x.to_bytes().to_vec();
+            aug.extend_from_slice(&p.msgs[mi]);
+            return chia_bls::sign_raw(sk_s, &aug);
+        }
+    }
     if (k as usize) < NKEYS {
         p.sigs[k as usize][mi].clone()
     } else if k as usize == NKEYS || p.shifted_pks.is_empty() {
@@ -242,10 +307,10 @@ pub struct Case {
 
 impl Query {
     fn has_inf(&self) -> bool {
-        self.pairs.iter().any(|p| p.0 >= INF)
+        self.pairs.iter().any(|p| invalid_key(p.0))
     }
     fn feature(&self) -> &'static str {
-        if self.pairs.iter().any(|p| p.0 > INF) {
+        if self.pairs.iter().any(|p| p.0 > INF && invalid_key(p.0)) {
             "key_outside_subgroup"
         } else if self.has_inf() {
             "infinity_key"
@@ -723,6 +788,13 @@ pub fn gen_query(rng: &mut Rng, keyspace: usize) -> Query {
         if n >= 3 && rng.chance(1, 2) {
             pairs[2] = pairs[0]; // three times
         }
+    }
+    // one query in 40: the valid key and, right after it, the key outside the subgroup that has
+    // the same fingerprint
+    if rng.chance(1, 40) {
+        let pos = rng.usize_below(pairs.len() + 1);
+        pairs.insert(pos, (K_COLLIDE_INVALID, rng.usize_below(NMSGS) as u8));
+        pairs.insert(pos, (K_COLLIDE_VALID, rng.usize_below(NMSGS) as u8));
     }
     // everything a signer can contribute to: all pairs except those with the infinity key
     let honest: Vec<Pair> = pairs.iter().copied().filter(|p| p.0 != INF).collect();
